@@ -103,9 +103,9 @@ Seeds == {Un(<<Leaf("int"), Leaf("str")>>), Un(<<Leaf("int"), Leaf("None")>>), U
           Un(<<H("list", <<Leaf("int")>>, <<>>), H("list", <<Leaf("str")>>, <<>>)>>), H("optional", <<Lit(<<"s_a", "s_b">>)>>, <<>>),
           Un(<<Lit(<<"none", "s_a">>), Lit(<<"s_b">>)>>), Un(<<H("dict", <<Leaf("str"), Leaf("int")>>, <<>>), H("dict", <<Leaf("str"), Leaf("str")>>, <<>>)>>)}
 
-VARIABLES h, prev, rule, keeps, n
-vars == <<h, prev, rule, keeps, n>>
-Init == /\ h \in Seeds /\ prev = h /\ rule = "seed" /\ keeps = TRUE /\ n = 0
+VARIABLES h, prev, rule, keeps, n, root, allkeeps
+vars == <<h, prev, rule, keeps, n, root, allkeeps>>
+Init == /\ h \in Seeds /\ prev = h /\ rule = "seed" /\ keeps = TRUE /\ n = 0 /\ root = h /\ allkeeps = TRUE
 Rewrite == /\ n < MaxRewrites
            /\ \E p \in Positions(h) : \E rw \in Rewrites(At(h, p)) :
                  /\ h' = Put(h, p, rw[3])
@@ -113,12 +113,15 @@ Rewrite == /\ n < MaxRewrites
                  /\ (rw[2] \/ Denote(Put(h, p, rw[3])) # Denote(h))
                  /\ rule' = rw[1]
                  /\ keeps' = rw[2]
+                 /\ allkeeps' = (allkeeps /\ rw[2])
            /\ prev' = h
            /\ n' = n + 1
+           /\ root' = root
 Next == Rewrite
 
 (* ------------------------------ properties (C15) --------------------------------------- *)
-PreservingKeepsMeaning == (rule # "seed" /\ keeps) => Denote(h) = Denote(prev)
+PreservingKeepsMeaning == /\ (rule # "seed" /\ keeps) => Denote(h) = Denote(prev)
+                          /\ allkeeps => Denote(h) = Denote(root)       \* a whole sequence of preserving rewrites
 ChangingChangesMeaning == (rule # "seed" /\ ~keeps) => Denote(h) # Denote(prev)
 \* the denotation never contains a union inside a union, a singleton union, or two literal members
 RECURSIVE Canonical(_)
@@ -128,6 +131,6 @@ Canonical(d) == /\ d.o = "union" => /\ Cardinality(d.m) >= 2
                 /\ \A i \in 1..Len(d.a) : Canonical(d.a[i])
 DenotationCanonical == Canonical(Denote(h))
 
-CaseRecord == [prev |-> prev, h |-> h, rule |-> rule, keeps |-> keeps]
+CaseRecord == [prev |-> prev, h |-> h, rule |-> rule, keeps |-> keeps, root |-> root, allkeeps |-> allkeeps]
 EmitCase == EmitCases => PrintT(ToJson(CaseRecord))
 =======================================================================================
